@@ -566,7 +566,12 @@ class FileHashStore(HashStore):
                     )
                     self.fhs_logger.debug("Attempting to tag object for pid: %s", pid)
                     cid = object_metadata.cid
-                    self.tag_object(pid, cid)
+                    tag_rejected = None
+                    try:
+                        self.tag_object(pid, cid)
+                    except (HashStoreRefsAlreadyExists, PidRefsAlreadyExistsError) as rejected:
+                        # The data object stays in the store when the tagging is rejected
+                        tag_rejected = rejected
                     # A concurrent delete may have removed the data object after it was found
                     # or stored above and before it was tagged. It is referenced now (nothing
                     # can remove it any more), so store the data again.
@@ -579,6 +584,8 @@ class FileHashStore(HashStore):
                             checksum_algorithm=checksum_algorithm_checked,
                             file_size_to_validate=expected_object_size,
                         )
+                    if tag_rejected is not None:
+                        raise tag_rejected
                     self.fhs_logger.info("Successfully stored object for pid: %s", pid)
                 finally:
                     # Release pid
